@@ -142,16 +142,16 @@ func (b *Bus) EaDump(start uint32, end uint32, data []byte) int {
 	for k := startK; k <= endK; k++ {
 		s := b.segment[k]
 		if s == nil {
-			// skip the whole segment:
-			for n := 0; a <= end && n < 16; n++ {
+			// skip the rest of the segment (the first segment may be entered mid-way):
+			for n := int(a & 0xf); a <= end && n < 16; n++ {
 				a++
 				i++
 			}
 			continue
 		}
 
-		// copy the whole segment:
-		for n := 0; a <= end && n < 16; n++ {
+		// copy the rest of the segment (the first segment may be entered mid-way):
+		for n := int(a & 0xf); a <= end && n < 16; n++ {
 			data[i] = s.Read(a)
 			a++
 			i++
